@@ -240,10 +240,13 @@ package convert
 // yields the time whose count is the wire value - for every wire value, the epoch (0) included -
 // and encoding puts exactly that count back on the wire; the open responses decode their server
 // time the same way.
+// (no precondition on v: an absent base time - JSON `null` - is a nil dereference that the codec's
+// recover guard turns into an error; what must never happen is a SUCCESSFUL conversion to a nil
+// metadata value, which the application could neither walk nor encode again - C12)
 //@ func ToBaseTime
-//@   props C11
-//@   requires v != nil
-//@   ensures result != nil && unixnano(result.BaseTime) == v.BaseTime && result.SessionID == v.SessionId && result.Name == v.Name && imp(v.ElapsedTime < 9223372036854775808, result.ElapsedTime == v.ElapsedTime)
+//@   props C11 C12
+//@   ensures result != nil
+//@   ensures imp(v != nil, unixnano(result.BaseTime) == v.BaseTime && result.SessionID == v.SessionId && result.Name == v.Name && imp(v.ElapsedTime < 9223372036854775808, result.ElapsedTime == v.ElapsedTime))
 //@ func ToBaseTimeProto
 //@   props C11
 //@   requires v != nil
